@@ -191,7 +191,24 @@ def main():
             "violation_exemplars": found,
         }
         json.dump(meta, open(d + "/meta.json", "w"), indent=1, ensure_ascii=False)
+    table()
     print("ok")
+
+
+def table():
+    """seeded/README.md: the catch matrix (also pasted into DESIGN.md section 9.6)."""
+    res = results()
+    rows = ["| change | breaks | what it needs to manifest | first run of the checks | final (quick tier) |", "|---|---|---|---|---|"]
+    for k in sorted(M):
+        if not os.path.exists(f"/verif/seeded/{k}/patch.diff"):
+            continue
+        m = M[k]
+        fin = ", ".join(f"{c}: {'caught' if r.startswith('caught') else r}" for c, r in sorted(res.get(k, {}).items())) or "-"
+        first = m["first"] + (" -> strengthened: " + m["strengthened"] if m["strengthened"] else "")
+        rows.append(f"| {k} | {k[:3]} | {m['change']}; needs {m['needs']} | {first} | {fin} |".replace("\n", " "))
+    open("/verif/seeded/README.md", "w").write(
+        "# Seeded changes and which check catches them\n\nGenerated by tools/seed_meta.py from its descriptions and seeded/RESULTS.txt "
+        "(tools/seed_matrix.sh).\n\n" + "\n".join(rows) + "\n")
 
 
 if __name__ == "__main__":
